@@ -27,6 +27,8 @@ func c04(r *core.Report) {
 	c04ValueOptions(r)
 	c04ExternalValue(r)
 	c04Anchors(r)
+	c04IdentFail(r)
+	c04DecodeVerbatim(r)
 }
 
 // c04Anchors: two checks whose mechanism is part of what they check.
